@@ -183,6 +183,11 @@ pub fn run_node<C: MakeCustom, Q: MakeCustomQuery>(
     node: &Node,
     reply: Option<ReplyInfo>,
 ) -> Result<Response<C>, StdError> {
+    if node.empty_msg && reply.is_none() {
+        // (reached only through transports that serialise the script themselves: behave like the
+        // undecodable zero-length body)
+        return Err(StdError::generic_err("undecodable message"));
+    }
     let self_addr = env.contract.address.to_string();
     // bind the contract slot as soon as the instantiate entry point runs
     if kind == "instantiate" {
@@ -222,9 +227,9 @@ pub fn run_node<C: MakeCustom, Q: MakeCustomQuery>(
         match w {
             WriteOp::Set { k, v } => storage.set(&names.key(k), v),
             WriteOp::Remove { k } => storage.remove(&names.key(k)),
-            WriteOp::Bulk { tag, n } => {
+            WriteOp::Bulk { tag, n, salt } => {
                 for i in 0..*n {
-                    storage.set(&crate::ops::bulk_key(*tag, i), &[*tag, (i >> 8) as u8, i as u8, 1]);
+                    storage.set(&crate::ops::bulk_key(*tag, i), &[*tag, (i >> 8) as u8, i as u8, 1, *salt]);
                 }
             }
             WriteOp::BulkRemove { tag, n } => {
@@ -257,7 +262,7 @@ pub fn run_node<C: MakeCustom, Q: MakeCustomQuery>(
         sender,
         funds: funds.iter().map(|c| (c.denom.clone(), c.amount.u128())).collect(),
         nid: node.nid,
-        reply,
+        reply: reply.clone(),
         queries,
         reads,
         post_reads,
@@ -281,7 +286,8 @@ pub fn run_node<C: MakeCustom, Q: MakeCustomQuery>(
         }
         resp.events.push(ev);
     }
-    resp.data = node.data.clone().map(Binary::new);
+    let echoed = if node.echo_reply_data { reply.as_ref().filter(|r| r.ok).and_then(|r| r.data.clone()) } else { None };
+    resp.data = echoed.or_else(|| node.data.clone()).map(Binary::new);
     let balance = |denom: &str| -> u128 {
         world.0.borrow_mut().rec_suspended = true;
         let b = querier.query_balance(self_addr.clone(), denom).map(|c| c.amount.u128()).unwrap_or(0);
